@@ -11,7 +11,9 @@ import (
 	"unicode/utf16"
 
 	"github.com/dop251/goja"
+	"github.com/dop251/goja/ast"
 	"github.com/dop251/goja/ftoa"
+	"github.com/dop251/goja/parser"
 	"verifharness/vh"
 )
 
@@ -290,9 +292,31 @@ func runCase(c Case) vh.Record {
 		rec.Nontrivial = hasDigit(c.S)
 		tags = append(tags, "len:"+c.K+"/"+lenBucket(len(c.S)))
 	case "lit":
-		v, err := rt.RunString(strOf(c.S))
+		// The claim compared is "the text is accepted as ONE NumericLiteral with value v".  A text such as
+		// `0x1F._ff` is a valid program (member access on a number) without being a literal, so the SHAPE
+		// is decided structurally with goja's parser: the program must be exactly one expression statement
+		// that is a NumberLiteral spanning the whole text; anything else counts as "not a literal" (-1).
+		// The literal's scan and value (what the property is about) are then observed by running it.
+		src := strOf(c.S)
+		isLit := false
+		shape := "parse error"
+		if prg, perr := parser.ParseFile(nil, "", src, 0); perr == nil {
+			shape = "not a single literal"
+			if len(prg.Body) == 1 {
+				if es, ok := prg.Body[0].(*ast.ExpressionStatement); ok {
+					if nl, ok := es.Expression.(*ast.NumberLiteral); ok && nl.Literal == src {
+						isLit = true
+					}
+				}
+			}
+		}
+		var v goja.Value
+		var err error = fmt.Errorf("not a literal")
+		if isLit {
+			v, err = rt.RunString(src)
+		}
 		res := "(-1)%Z"
-		obs := "error"
+		obs := shape
 		if err == nil {
 			switch v.Export().(type) {
 			case int64, float64:
@@ -303,7 +327,7 @@ func runCase(c Case) vh.Record {
 				res = "(-2)%Z"
 				obs = "not a number"
 			}
-		} else {
+		} else if isLit {
 			obs = errName(err)
 		}
 		rec.Coq = fmt.Sprintf("CLit %s %s", coqUnits(c.S), res)
@@ -1177,6 +1201,9 @@ func main() {
 		r := vh.NewRng(m.Seed)
 		for i := 0; i < m.N; i++ {
 			c := genCase(r)
+			for only := m.Args["only"]; only != "" && c.K+"/"+c.Cls != only; {
+				c = genCase(r)
+			}
 			vh.Guard(w, vh.MustJSON(c), "CFail", 20, func() vh.Record { return runCase(c) })
 		}
 	case "replay":
